@@ -57,8 +57,14 @@ func (p *SignatureParams) DefaultsFromSignature() error {
 	}
 	// copy embedded items
 	if p.Entitlement == nil && oldSig.Entitlement != nil {
+		if len(oldSig.Entitlement) < 8 {
+			return errShort
+		}
 		p.Entitlement = oldSig.Entitlement[8:]
 		if p.EntitlementDER == nil && oldSig.EntitlementDER != nil {
+			if len(oldSig.EntitlementDER) < 8 {
+				return errShort
+			}
 			// copy DER only if xml entitlements were also not set
 			p.EntitlementDER = oldSig.EntitlementDER[8:]
 		}
